@@ -242,6 +242,80 @@ fn check_single(p: &Params) -> Result<(), String> {
     if a != b {
         return Err("the stream depends on what the reusable tick buffer held before".into());
     }
+    // the same stream through the Iterator contract: stepping with next() gives the collected events, every
+    // size_hint() brackets the number of events still to come, and the iterator stays exhausted after None
+    let mut buf = junk();
+    let mut it = SliderEventsIter::new(p.start, p.dur, p.vel, p.tick, p.len, p.spans, &mut buf);
+    let mut hints = vec![];
+    let mut stepped = vec![];
+    loop {
+        hints.push(it.size_hint());
+        match it.next() {
+            Some(e) => stepped.push(e),
+            None => break,
+        }
+    }
+    if stepped != a {
+        return Err(format!("stepping with next() yields {} events, collect() {}", stepped.len(), a.len()));
+    }
+    for (i, (lo, hi)) in hints.iter().enumerate() {
+        let remaining = stepped.len() - i;
+        if *lo > remaining || hi.map_or(false, |h| h < remaining) {
+            return Err(format!("size_hint() before event #{i} is ({lo}, {hi:?}) but {remaining} events follow"));
+        }
+    }
+    if it.next().is_some() || it.next().is_some() || it.size_hint().0 != 0 {
+        return Err("the iterator yields an event (or promises one) after it returned None".into());
+    }
+    // consumers other than a plain next() loop, started from the beginning and from the middle of the stream
+    // (after k calls of next()): fold / for_each, count, last, nth must see the same remaining events
+    let n = a.len();
+    for k in [0usize, 1, n / 2] {
+        if k > n {
+            continue;
+        }
+        let mk = |buf: &mut Vec<SliderEvent>| -> Vec<SliderEvent> {
+            let mut it = SliderEventsIter::new(p.start, p.dur, p.vel, p.tick, p.len, p.spans, buf);
+            for _ in 0..k {
+                it.next();
+            }
+            it.fold(Vec::new(), |mut v, e| {
+                v.push(e);
+                v
+            })
+        };
+        let mut b1 = Vec::new();
+        let folded = mk(&mut b1);
+        if folded != a[k..] {
+            return Err(format!("after {k} calls of next(), fold() sees {} events in another order or number than next() would ({} expected)", folded.len(), n - k));
+        }
+        let mut b2 = Vec::new();
+        let mut it = SliderEventsIter::new(p.start, p.dur, p.vel, p.tick, p.len, p.spans, &mut b2);
+        for _ in 0..k {
+            it.next();
+        }
+        let mut seen = Vec::new();
+        it.for_each(|e| seen.push(e));
+        if seen != a[k..] {
+            return Err(format!("after {k} calls of next(), for_each() sees other events than next() would"));
+        }
+        let mut b3 = Vec::new();
+        let mut it = SliderEventsIter::new(p.start, p.dur, p.vel, p.tick, p.len, p.spans, &mut b3);
+        if k > 0 && it.nth(k - 1) != Some(a[k - 1].clone()) {
+            return Err(format!("nth({}) is not event #{}", k - 1, k - 1));
+        }
+        if it.count() != n - k {
+            return Err(format!("count() after {k} events is not {}", n - k));
+        }
+        let mut b4 = Vec::new();
+        let mut it = SliderEventsIter::new(p.start, p.dur, p.vel, p.tick, p.len, p.spans, &mut b4);
+        for _ in 0..k {
+            it.next();
+        }
+        if it.last() != a[k..].last().cloned() {
+            return Err(format!("last() after {k} events is not the tail"));
+        }
+    }
     Ok(())
 }
 
